@@ -419,7 +419,6 @@ impl<'a> PointCloudWriter<'a> {
 //@fn src/pc_writer.rs PointCloudWriter write_buffer_to_disk serves=C01,C02,C10,C16 ret=r
 //@rw for _ in 0\.\.packet_points ==> for _k in it: 0..packet_points
 //@rw for \(i, prototype\) in self\.prototype\.iter\(\)\.enumerate\(\) \{ ==> for i in it2: 0..self.prototype.len() { let prototype = &self.prototype[i];
-//@rw size\.to_le_bytes\(\) ==> shim_u16_to_le_bytes(size)
 //@rw \.write\(&mut self\.writer\)\? ==> .write(self.writer)?
 //@rw for bs in &self\.byte_streams \{ ==> for bs in it3: &self.byte_streams {
 //@rw for size in bs_sizes \{ ==> for si in it4: 0..bs_sizes.len() { let size = bs_sizes[si];
